@@ -81,6 +81,21 @@ type ModelField struct {
 	PkgPath                string
 }
 
+// ImplCheck: the listed concrete types must satisfy the interface-level contracts of the named interface
+type ImplCheck struct {
+	Prop, Iface string
+	Types       []string
+	PkgPath     string
+}
+
+// ViewDecl: for objects of the named pointer type, ghost[obj] is defined by an expression over `self`
+type ViewDecl struct {
+	Ghost, Type, Text string
+	PkgPath           string
+	File              string
+	Line              int
+}
+
 // SweepDecl: verify the safety obligations of every function defined in the named files
 type SweepDecl struct {
 	Prop    string
@@ -113,6 +128,8 @@ type ContractSet struct {
 	Specs  []*SpecDecl
 	Axioms []*AxiomDecl
 	Models []*ModelField
+	ImplChecks []*ImplCheck
+	Views    []*ViewDecl
 	Monotone []string
 	Immutable []string
 	Sweeps []*SweepDecl
@@ -239,6 +256,21 @@ func parseContractSource(cs *ContractSet, file, src, pkgPath string) error {
 			}
 			cs.Sweeps = append(cs.Sweeps, sw)
 			cur = nil
+		case "implcheck":
+			f := strings.Fields(rest)
+			if len(f) < 3 {
+				return fmt.Errorf("%s:%d: implcheck <prop> <pkg.Iface> <types...>", rl.file, rl.line)
+			}
+			cs.ImplChecks = append(cs.ImplChecks, &ImplCheck{Prop: f[0], Iface: f[1], Types: f[2:], PkgPath: pkgPath})
+			cur = nil
+		case "view":
+			// view ghost[*T] = expr
+			m := regexp.MustCompile(`^([A-Za-z_][A-Za-z0-9_]*)\[\*?([A-Za-z_][A-Za-z0-9_]*)\]\s*=\s*(.*)$`).FindStringSubmatch(rest)
+			if m == nil {
+				return fmt.Errorf("%s:%d: view ghost[*T] = expr", rl.file, rl.line)
+			}
+			cs.Views = append(cs.Views, &ViewDecl{Ghost: m[1], Type: m[2], Text: m[3], PkgPath: pkgPath, File: rl.file, Line: rl.line})
+			cur = nil
 		case "typeinv":
 			parts := strings.SplitN(rest, ":", 2)
 			if len(parts) != 2 {
@@ -277,6 +309,21 @@ func parseContractSource(cs *ContractSet, file, src, pkgPath string) error {
 			}
 			cs.Models = append(cs.Models, &ModelField{Type: tf[0], Field: tf[1], Ghost: f[1], Fn: f[2], PkgPath: pkgPath})
 			cur = nil
+		case "funcparam":
+			// funcparam [(*T).]F.p(params) : contract for calls through parameter p of function F
+			hdr := rest
+			params := ""
+			if i := strings.LastIndex(hdr, "("); i >= 0 && strings.HasSuffix(strings.TrimSpace(hdr), ")") && !strings.HasPrefix(strings.TrimSpace(hdr[i:]), "(*") {
+				params = strings.TrimSuffix(strings.TrimSpace(hdr[i+1:]), ")")
+				hdr = strings.TrimSpace(hdr[:i])
+			}
+			cur = &Contract{PkgPath: pkgPath, Name: hdr, Inv: map[int][]Clause{}, Dec: map[int]Clause{}, Flags: map[string]string{"funcparam": "yes"}, Absorbs: map[string]string{}, File: rl.file, Line: rl.line}
+			if strings.TrimSpace(params) != "" {
+				for _, p := range strings.Split(params, ",") {
+					cur.Params = append(cur.Params, strings.TrimSpace(p))
+				}
+			}
+			cs.Funcs = append(cs.Funcs, cur)
 		case "funcfield":
 			// funcfield T.f(params)
 			hdr := rest
